@@ -109,52 +109,75 @@ def c05_1(R):
     if rl is None:
         return
     defs = stq.all_defs(rl)
-    init = [d for d in defs if not (isinstance(d, Stmt) and local_update(stq, d))]
-    R.require(len(init) == 1, "one initialisation of the send budget")
-    init = init[0]
-    if isinstance(init, Stmt) and init.rv.kind == "use":
-        t0 = trace(stq, init.rv.ops[0])
-        R.require(t0.kind == "call" and not t0.fields, "the send budget is initialised from a call")
-        init = t0.root[1]
-    ib = stq
-    for _ in range(3):
-        # the initialiser may live in a private helper of the socket: follow its returned call
-        if not call_matches(init, ("Option::unwrap_or_else",)) and init.j.get("res_local") and F.body(init.resolved) is not None:
-            ib = F.body(init.resolved)
-            init = returned_call(ib)
-            R.require(init is not None, "send budget helper returns the result of one call")
-    R.require(call_matches(init, ("Option::unwrap_or_else",)), "remaining_cwnd = recovery.remaining_cwnd(..).unwrap_or_else(..)")
-    u0 = B.ub(ib, init.args[0])
-    need0 = {("field", "Recovering.cwnd"), ("field", "VirtualSocket.last_remote_window")}
-    if u0 is not None and need0 <= u0:
-        R.ok("remaining_cwnd<=min(cwnd,rwnd)", "in recovery", "ub = " + fmt_ub(u0))
-    else:
-        R.fail([STQ, "remaining_cwnd(recovery)", "ub=" + fmt_ub(u0)], "in recovery the send budget is no longer bounded by min(recovery cwnd, peer window)", where=init.where(), instance="remaining_cwnd<=min(cwnd,rwnd)")
+    inits = [d for d in defs if not (isinstance(d, Stmt) and local_update(stq, d))]
+    R.require(len(inits) >= 1, "an initialisation of the send budget")
+    # every value the budget can start from, with its upper-bound tags: `opt.unwrap_or_else(|| e)` contributes the payload of
+    # opt and the closure's result; `match opt { Some(r) => r, None => e }` contributes two assignments; a helper its returned call
+    values = []   # (ub, where, bodies in which the value is computed)
+    for d in inits:
+        c, ib = None, stq
+        if isinstance(d, Stmt):
+            t0 = trace(stq, d.rv.ops[0]) if d.rv.kind == "use" else None
+            if t0 is not None and t0.kind == "call" and not t0.fields:
+                c = t0.root[1]
+            else:
+                values.append((B.ub(stq, d.rv.ops[0]) if d.rv.kind == "use" else B.ub(stq, d.place), d.where(), [stq]))
+                continue
+        else:
+            c = d
+        for _ in range(3):
+            if not call_matches(c, ("Option::unwrap_or_else",)) and c.j.get("res_local") and F.body(c.resolved) is not None and returned_call(F.body(c.resolved)) is not None:
+                ib = F.body(c.resolved)
+                c = returned_call(ib)
+        if call_matches(c, ("Option::unwrap_or_else",)):
+            values.append((B.ub(ib, c.args[0]), c.where(), [ib]))
+            ct = trace(ib, c.args[1])
+            R.require(ct.kind == "rv" and ct.root[1].rv.kind == "agg" and ct.root[1].rv.j["ak"] == "closure", "closure argument of unwrap_or_else")
+            cl = R.body(ct.root[1].rv.j["closure"])
+            values.append((B.summary(cl.name), cl.where(), [cl]))
+        else:
+            values.append((B._call(ib, c, 0), c.where(), [ib]))
+    RW = ("field", "VirtualSocket.last_remote_window")
+    kinds = {}
+    for u, wh, bods in values:
+        is_rec = u is not None and {("field", "Recovering.cwnd"), RW} <= u
+        is_norm = u is not None and RW in u and any(x[0] == "call" and x[1].endswith("CongestionController::window") for x in u)
+        if is_rec:
+            kinds.setdefault("recovery", []).append((u, wh, bods))
+        elif is_norm:
+            kinds.setdefault("normal", []).append((u, wh, bods))
+        else:
+            kinds.setdefault("unbounded", []).append((u, wh, bods))
+    for u, wh, bods in kinds.get("unbounded", []):
+        # say which of the two expected initialisations this one fails to be
+        which = "recovery" if "recovery" not in kinds and "normal" in kinds else "normal"
+        R.fail([STQ, "remaining_cwnd(%s)" % which, "ub=" + fmt_ub(u)], ("in recovery the send budget is no longer bounded by min(recovery cwnd, peer window)" if which == "recovery" else "outside recovery the send budget is no longer bounded by min(congestion window, peer window)"), where=wh, instance="remaining_cwnd<=min(cwnd,rwnd)")
+    for k, label in (("recovery", "in recovery"), ("normal", "outside recovery")):
+        if k in kinds:
+            R.ok("remaining_cwnd<=min(cwnd,rwnd)", label, "ub = " + fmt_ub(kinds[k][0][0]))
+        elif "unbounded" not in kinds:
+            R.fail([STQ, "remaining_cwnd(%s)" % k, "no-such-initialisation"], "the send budget has no initialisation bounded by the %s window" % ("recovery" if k == "recovery" else "congestion"), where=stq.where(), instance="remaining_cwnd<=min(cwnd,rwnd)")
     rc = R.body("recovery::Recovery::remaining_cwnd")
     if any(call_matches(t, ("saturating_sub",)) and any(x == ("field", "Pipe.pipe") for x in value_sources(rc, t.args[1])) for t in rc.calls()):
         R.ok("remaining_cwnd-subtracts-outstanding", rc.name, "saturating_sub(pipe)")
     else:
         R.fail([rc.name, "missing-subtraction", "Pipe.pipe"], "recovery send budget no longer subtracts the pipe estimate", where=rc.where(), instance="remaining_cwnd-subtracts-outstanding")
-    ct = trace(ib, init.args[1])
-    R.require(ct.kind == "rv" and ct.root[1].rv.kind == "agg" and ct.root[1].rv.j["ak"] == "closure", "closure argument of unwrap_or_else")
-    cl = R.body(ct.root[1].rv.j["closure"])
-    u1 = B.summary(cl.name)
-    need1 = {("field", "VirtualSocket.last_remote_window")}
-    has_win = u1 is not None and any(x[0] == "call" and x[1].endswith("CongestionController::window") for x in u1)
-    if u1 is not None and need1 <= u1 and has_win:
-        R.ok("remaining_cwnd<=min(cwnd,rwnd)", "outside recovery", "ub = " + fmt_ub(u1))
-    else:
-        R.fail([STQ, "remaining_cwnd(normal)", "ub=" + fmt_ub(u1)], "outside recovery the send budget is no longer bounded by min(congestion window, peer window)", where=cl.where(), instance="remaining_cwnd<=min(cwnd,rwnd)")
-    if any(call_matches(t, ("saturating_sub",)) and ("call", "stream_tx_segments::Segments::calc_flight_size") in value_sources(cl, t.args[1]) for t in cl.calls()):
+    nb = []
+    for u, wh, bods in kinds.get("normal", []) + kinds.get("unbounded", []):
+        nb += [x for x in bods if x not in nb]
+    if not nb:
+        nb = [stq]
+    if any(call_matches(t, ("saturating_sub",)) and ("call", "stream_tx_segments::Segments::calc_flight_size") in value_sources(cl_, t.args[1]) for cl_ in nb for t in cl_.calls()):
         R.ok("remaining_cwnd-subtracts-outstanding", "outside recovery", "saturating_sub(calc_flight_size(last_sent_seq_nr))")
     else:
-        R.fail([STQ, "missing-subtraction", "calc_flight_size"], "the send budget no longer subtracts the bytes in flight", where=cl.where(), instance="remaining_cwnd-subtracts-outstanding")
-    for t in cl.calls():
-        if call_matches(t, ("Segments::calc_flight_size",)):
-            if trace(cl, t.args[1]).last_field == "VirtualSocket.last_sent_seq_nr":
-                R.ok("flight-size-argument", "calc_flight_size(last_sent_seq_nr)")
-            else:
-                R.fail([STQ, "calc_flight_size-arg", trace(cl, t.args[1]).describe()], "flight size computed up to something other than last_sent_seq_nr", where=t.where(), instance="flight-size-argument")
+        R.fail([STQ, "missing-subtraction", "calc_flight_size"], "the send budget no longer subtracts the bytes in flight", where=nb[0].where(), instance="remaining_cwnd-subtracts-outstanding")
+    for cl_ in nb:
+        for t in cl_.calls():
+            if call_matches(t, ("Segments::calc_flight_size",)):
+                if trace(cl_, t.args[1]).last_field == "VirtualSocket.last_sent_seq_nr":
+                    R.ok("flight-size-argument", "calc_flight_size(last_sent_seq_nr)")
+                else:
+                    R.fail([STQ, "calc_flight_size-arg", trace(cl_, t.args[1]).describe()], "flight size computed up to something other than last_sent_seq_nr", where=t.where(), instance="flight-size-argument")
     # (c) decrement after every successful send, before the next iteration
     decs = {s.bb for s in stq.stmts() if (lambda lu: lu and lu[0] == rl and lu[1] == "-=" and any(x[0] == "call" and x[1].endswith("payload_size") for x in value_sources(stq, lu[2])))(local_update(stq, s))}
     loops = [blocks for h, blocks in stq.natural_loops() if site.bb in blocks]
